@@ -5,6 +5,7 @@ import (
 	"regexp"
 	"regexp/syntax"
 	"runtime"
+	"strings"
 	"testing"
 	"time"
 
@@ -96,7 +97,7 @@ func checkC20(r *Report, known []Finding) {
 	}
 	// ---- (c) + (d): per-strategy templates
 	templates := []string{`foo.*?bar`, `\d+`, `[a-z]+[0-9]+`, `(foo|bar|baz)qux`, `^(\d+|UUID|hex32)`, `.*\.txt$`, `\w+@\w+\.com`, `(?i)hello`, `error|warning|fatal`,
-		`\d{1,3}\.\d{1,3}`, `(?m)^/.*\.php`, `.*error.*`, `^/api/.*\.json$`, `a(b|c)*d`, `[^,]+,`, `(\w+)\s(\w+)`, `x*`, `hello`, `\bfoo\b`, `.*\.(txt|log|md)`}
+		`\d{1,3}\.\d{1,3}`, `(?m)^/.*\.php`, `.*error.*`, `^/api/.*\.json$`, `a(b|c)*d`, `[^,]+,`, `(\w+)\s(\w+)`, `x*`, `hello`, `\bfoo\b`, `.*\.(txt|log|md)`, `(\w{2,8})+`, `^\w+(-\w+)*`}
 	tc := r.Tie("heap per Regex does not grow with the number of searches")
 	td := r.Tie("documented zero-allocation calls allocate nothing after warm-up")
 	for ti, p := range templates {
@@ -173,15 +174,47 @@ func checkC20(r *Report, known []Finding) {
 			}},
 			{"AppendAllIndex", func() { buf = cx.AppendAllIndex(buf[:0], h, -1) }},
 		}
+		// the same calls on a haystack of ~100 KB: per-search tables sized by the input (visited table, slot tables) must be
+		// kept by the pooled state, not re-allocated per call
+		var large []byte
+		for len(large) < 100000 {
+			large = append(large, hays[3]...)
+			large = append(large, ' ')
+		}
+		for _, name := range []string{"Match", "Engine.IsMatch", "Engine.FindIndices", "Count"} {
+			name := name
+			var f func()
+			switch name {
+			case "Match":
+				f = func() { cx.Match(large) }
+			case "Engine.IsMatch":
+				f = func() { eng.IsMatch(large) }
+			case "Engine.FindIndices":
+				f = func() { eng.FindIndices(large) }
+			default:
+				f = func() { cx.Count(large, -1) }
+			}
+			if guard(20*time.Second, func() string { f(); return "" }) != "" {
+				continue // too slow on this input: C05's subject, not measured here
+			}
+			calls = append(calls, struct {
+				name string
+				f    func()
+			}{name + "(100KB)", f})
+		}
 		for _, c := range calls {
 			c.f()
 			c.f()
 			td.Cases++
-			allocs := testing.AllocsPerRun(20, c.f)
+			runs := 20
+			if strings.HasSuffix(c.name, "(100KB)") {
+				runs = 4
+			}
+			allocs := testing.AllocsPerRun(runs, c.f)
 			r.Case("alloc\x00"+p+"\x00"+c.name, true)
 			if allocs > 0 {
 				td.Disagreements++
-				attrs := map[string]string{"api": c.name, "strategy": strat, "kind": "allocates"}
+				attrs := map[string]string{"api": strings.TrimSuffix(c.name, "(100KB)"), "strategy": strat, "kind": "allocates"}
 				if f := matchKnown(known, "C20", attrs); f != nil {
 					r.Known(f, map[string]string{"pattern": p, "api": c.name, "allocs": fmt.Sprint(allocs)})
 					continue
